@@ -232,7 +232,7 @@ def make_path_class(fs):
             return str(o) == self.p
 
         def __hash__(self):
-            return hash(self.p)
+            return len(self.p)  # (hash() of a str is intercepted by the tracer and may not be a plain int)
 
         def __repr__(self):
             return "FakePath(%r)" % self.p
